@@ -386,7 +386,10 @@ func (c *FnCtx) runGhostAt(bc *blockCtx, a Anchor) {
 		if lbl == "" {
 			lbl = anchorString(a)
 		}
-		c.oblige("assert", lbl, bc.reach, t, as.C.Pos, as.C.Text, as.C.Props)
+		ao := c.oblige("assert", lbl, bc.reach, t, as.C.Pos, as.C.Text, as.C.Props)
+		if c.eng.openKF[ao.Name] {
+			continue // a listed open finding: known not to hold, so it is not assumed afterwards
+		}
 		// cut rule: once proved, the asserted fact is available to everything that follows
 		if ta, err := env.evalAssume(as.C.E); err == nil {
 			c.sc.assert(sImp(bc.reach, ta))
